@@ -32,7 +32,9 @@ RULE = ("constructor maps + history of 4-22 operations on one Workflow: add (9 n
         "unknown keys, None), value and channel assignment through wf.inputs[...], run with/without keyword "
         "arguments (cyclic graphs included), re-adding a REMOVED node object (same or new label), relabelling a "
         "current child by add_child(child, label=new), replace_child by a fresh or a previously removed node of the "
-        "same kind (only where the replaced child is unconnected and no connected channel is exposed); ~85% of the operations are biased to be applicable. Non-trivial = the "
+        "same kind (only where the replaced child is unconnected and no connected channel is exposed), IN-PLACE edits "
+        "of the map object handed out by wf.inputs_map / wf.outputs_map (item assignment incl. names already used by "
+        "another key and None, del, update) on maps that are None, empty ({} by setter or constructor) or non-empty; ~85% of the operations are biased to be applicable. Non-trivial = the "
         "workflow had >=2 children and a map or a connection at some point; distinct = distinct (maps, history)")
 TRUSTED = ["channel identity is observed by an `is` search over every channel object created by the driver",
            "model and implementation observations are compared step by step through a 61-bit polynomial hash "
@@ -41,7 +43,8 @@ TRUSTED = ["channel identity is observed by an `is` search over every channel ob
 ASSUMPTIONS = ["children are function nodes without type hints and with defaults for every argument (always ready, "
                "never failing); no executors; maps are dicts with str / None values given to the setters or the "
                "constructor (bidict arguments and non-str values are not exercised); channels are connected only "
-               "between children of the workflow; labels are not edited after adoption; replace_child is C14's",
+               "between children of the workflow; labels are not edited after adoption; replace_child is C14's; "
+               "an in-place .update() carries at most one None value (two raw None are duplicates for bidict itself)",
                "C15_available_partial assumes child labels free of '__' and not ending in '_' (then "
                "child.label ++ '__' ++ channel.label is injective: lemma scoped_inj_good) and no map name equal to "
                "the default key of an exposed unmapped channel; both guards are refuted without (S18, S33)"]
@@ -192,6 +195,8 @@ def gen_map(rng, sim, d):
     r = rng.random()
     if r < 0.08:
         return None
+    if r < 0.2:
+        return []                  # an EMPTY map, to be filled in place later
     chans = sim.chans(d)
     keys = [scoped(c, l) for c, l in chans]
     keys = list(dict.fromkeys(keys))
@@ -227,6 +232,10 @@ def gen_case(rng, n_ops, tricky):
     om = gen_map(rng, sim, 1) if rng.random() < 0.1 else None
     if rng.random() < 0.08:
         im = [["a__x", "q"], ["b__x", rng.choice(["q", "r", None])]]
+    if rng.random() < 0.12:
+        im = []
+    if rng.random() < 0.12:
+        om = []
     dup = lambda m: m is not None and len({v for _, v in m if v is not None}) < len([v for _, v in m if v is not None])
     sim.maps = [None if dup(im) else im, None if dup(om) else om]
     ops = []
@@ -242,7 +251,13 @@ def gen_case(rng, n_ops, tricky):
             k = "add"
         else:
             k = rng.choice(["add"] * 4 + ["rm"] * 3 + ["con"] * 5 + ["dis", "disall"] + ["map"] * 6 + ["set"] * 3
-                           + ["wcon"] + ["run"] * 4 + ["readd"] * 3 + ["relabel"] * 2 + ["replace"] * 2)
+                           + ["wcon"] + ["run"] * 4 + ["readd"] * 3 + ["relabel"] * 2 + ["replace"] * 2
+                           + ["mset"] * 5 + ["mdel"] + ["mupd"] * 2)
+            if k in ("mset", "mdel", "mupd") and not wild:
+                d0 = rng.choice([0, 1])
+                if sim.maps[d0] is None and rng.random() < 0.8:
+                    ops.append(["map", d0, []])       # start from an empty map, then edit it in place
+                    sim.maps[d0] = []
             if k == "readd" and not sim.shelf and not wild:
                 k = "rm" if len(sim.kids) > 2 else "add"
             if k in ("relabel", "replace") and not sim.kids:
@@ -336,6 +351,59 @@ def gen_case(rng, n_ops, tricky):
             ops.append(["map", d, m])
             if not dup(m):
                 sim.maps[d] = m
+        elif k in ("mset", "mdel", "mupd"):
+            d = rng.choice([0, 1])
+            if sim.maps[d] is None and sim.maps[1 - d] is not None and rng.random() < 0.8:
+                d = 1 - d
+            cur = dict(sim.maps[d] or [])
+            chans = [scoped(c, l) for c, l in sim.chans(d)] or ["a__x"]
+            used = [v for v in cur.values() if v is not None]
+
+            def pick_val(key):
+                q = rng.random()
+                others = [v for kk, v in cur.items() if v is not None and kk != key]
+                if q < 0.35 and others:
+                    return rng.choice(others)                  # a name another key already carries
+                if q < 0.5:
+                    return None
+                if q < 0.6 and chans:
+                    return rng.choice(chans)                   # some default key (shadow / identity)
+                return rng.choice(NAMES + ["u", "v", "w"])
+            if k == "mset":
+                key = rng.choice(list(cur) + chans * 2) if not wild else rng.choice(["zz__x"] + chans)
+                v_ = pick_val(key)
+                ops.append(["mset", d, key, v_])
+                if sim.maps[d] is not None and not (v_ is not None and any(v == v_ and kk != key for kk, v in cur.items())):
+                    cur[key] = v_
+                    sim.maps[d] = [[a, b] for a, b in cur.items()]
+            elif k == "mdel":
+                key = rng.choice(list(cur)) if cur and not wild else rng.choice(chans)
+                ops.append(["mdel", d, key])
+                if sim.maps[d] is not None and key in cur:
+                    del cur[key]
+                    sim.maps[d] = [[a, b] for a, b in cur.items()]
+            else:
+                keys = list(dict.fromkeys(rng.choice(list(cur) + chans * 2) for _ in range(rng.choice([1, 2, 2, 3]))))
+                pairs, nones = [], 0
+                for key in keys:
+                    v_ = pick_val(key)
+                    if v_ is None:
+                        nones += 1
+                        if nones > 1:            # two raw None in ONE update are duplicates for bidict
+                            v_ = rng.choice(NAMES)
+                    if rng.random() < 0.15 and pairs and pairs[-1][1] is not None:
+                        v_ = pairs[-1][1]        # the same name twice inside one update
+                    pairs.append([key, v_])
+                ops.append(["mupd", d, pairs])
+                if sim.maps[d] is not None:
+                    new, ok = dict(cur), True
+                    for key, v_ in pairs:
+                        if v_ is not None and any(v == v_ and kk != key for kk, v in new.items()):
+                            ok = False
+                            break
+                        new[key] = v_
+                    if ok:
+                        sim.maps[d] = [[a, b] for a, b in new.items()]
         elif k == "set":
             keys = sim.panel_keys(0)
             key = rng.choice(["nokey", "a__x", "q"]) if wild or not keys else rng.choice(keys)[0]
@@ -520,6 +588,14 @@ def run_impl(case):
                 wf.inputs_map = _dict(op[2])
             else:
                 wf.outputs_map = _dict(op[2])
+        elif k in ("mset", "mdel", "mupd"):      # in-place edits of the object the property hands out
+            m = wf.inputs_map if op[1] == 0 else wf.outputs_map
+            if k == "mset":
+                m[op[2]] = op[3]
+            elif k == "mdel":
+                del m[op[2]]
+            else:
+                m.update(_dict(op[2]))
         elif k == "set":
             wf.inputs[op[1]] = op[2]
         elif k == "wcon":
@@ -586,6 +662,12 @@ def op_coq(op):
         return f"ORelabel {cs(op[1])} {cs(op[2])}"
     if k == "replace":
         return f"OReplace {cs(op[1])} {_ostr(op[2])}"
+    if k == "mset":
+        return f"OMapSet {D[op[1]]} {cs(op[2])} {_ostr(op[3])}"
+    if k == "mdel":
+        return f"OMapDel {D[op[1]]} {cs(op[2])}"
+    if k == "mupd":
+        return f"OMapUpdate {D[op[1]]} " + cl(f"({cs(a)}, {_ostr(b)})" for a, b in op[2])
     raise ValueError(op)
 
 
@@ -666,6 +748,56 @@ def failures(case, obs):
                 if res != "ok":
                     out.append((step, "bijective", f"a one-to-one map was refused with {res}: {m}"))
                 want_maps[d] = "nomap" if m is None else m
+        if op[0] in ("mset", "mdel", "mupd"):
+            d = op[1]
+            M = prev[1 + d]
+            verdict = None                      # "refused" | "accepted" | "either"
+            new = None
+            if M == "nomap":
+                verdict = "refused"
+            else:
+                cur = {k: v for k, v in M}
+                clash = lambda key, v_, mp: v_ is not None and any(v == v_ and kk != key for kk, v in mp.items())
+                if op[0] == "mset":
+                    if clash(op[2], op[3], cur):
+                        verdict = "refused"
+                    else:
+                        verdict, new = "accepted", dict(cur)
+                        new[op[2]] = op[3]
+                elif op[0] == "mdel":
+                    if op[2] in cur:
+                        verdict, new = "accepted", {k: v for k, v in cur.items() if k != op[2]}
+                    else:
+                        verdict = "refused"
+                else:
+                    new = dict(cur)
+                    new.update({a: b for a, b in op[2]})
+                    nm = [v for v in new.values() if v is not None]
+                    if len(set(nm)) < len(nm):
+                        verdict, new = "refused", None
+                    elif any(clash(a, b, cur) for a, b in op[2]):
+                        verdict = "either"       # a name still held by another key while the update is applied
+                    else:
+                        verdict = "accepted"
+            got_map = snap[1 + d]
+            unchanged = got_map == M
+            applied = new is not None and got_map != "nomap" and {k: v for k, v in got_map} == new
+            if verdict == "refused" and M != "nomap" and op[0] != "mdel" and res == "ok":
+                out.append((step, "bijective", f"the in-place edit {op} maps a second key onto a used name and was "
+                                               f"accepted: {got_map}"))
+            elif verdict == "refused" and (res == "ok" or not unchanged):
+                out.append((step, "maps", f"the in-place edit {op} had to be refused without effect; got {res}, {got_map}"))
+            elif verdict == "accepted" and (res != "ok" or not applied):
+                out.append((step, "maps", f"the in-place edit {op} keeps the map one-to-one but gave {res}, {got_map}"))
+            elif verdict == "either" and not ((res == "ok" and applied) or (res != "ok" and unchanged)):
+                out.append((step, "maps", f"the in-place update {op} was neither applied nor refused cleanly: {res}, {got_map}"))
+            want_maps[d] = got_map
+        for d in (0, 1):
+            if snap[1 + d] != "nomap":
+                nm = [v for _, v in snap[1 + d] if v is not None]
+                if len(set(nm)) < len(nm):
+                    out.append((step, "bijective", f"the stored {('inputs', 'outputs')[d]}_map sends two keys to one "
+                                                   f"name: {snap[1 + d]}"))
         if snap[1] != want_maps[0] or snap[2] != want_maps[1]:
             out.append((step, "maps", f"stored maps {snap[1:]} differ from the last accepted ones {want_maps}"))
             want_maps = [snap[1], snap[2]]
